@@ -9,7 +9,6 @@ TABLES = {
     "enumB": (["a::i", "c#2::i", "ca::i", "s#2/"], 3, ["x::i", "y#3::i"]),
     "hashC": (["vol::i", "pan::i", "pa:", "fx/"], 3, ["on::T:F", "mix::f", "m#10::i"]),
     "linD": (["a", "a::i", "b#1", "b0::i"], -1, ["q"]),
-    "hashE": (["abcdefghijklmnop::i", "pan::i", "p:"], -1, ["q"]),   # a name beyond libstdc++'s 15-char small-string buffer
 }
 
 
@@ -91,8 +90,8 @@ def build(ctx):
         templates = [t_ for t_ in templates if not (t_[:3] in seen_t or seen_t.add(t_[:3])) and len(t_[0]) + t_[1] + len(t_[2]) <= 24]
         if not thorough:
             templates = templates[::3] if len(templates) > 60 else templates[::2]
-        if tname == "hashE":    # long name: keep the exact paths and a few edits (loop bounds grow with the name length)
-            templates = [t_ for t_ in templates if len(t_[0]) + t_[1] + len(t_[2]) <= 4] + [("abcdefghijklmnop", 0, "", ["", "i"]), ("abcdefghijklmno", 1, "", ["", "i"]), ("", 1, "bcdefghijklmnop", ["", "i"]), ("abcdefgh", 1, "jklmnop", ["", "i"]), ("abcdefghijklmnop", 1, "", ["", "i"])]
+            if any("#" in n_ for n_ in root + sub):
+                templates = templates[::2]
         LB = max(len(t_[0]) + t_[1] + len(t_[2]) for t_ in templates) + 4
         tagsets = ["i", "", "s"] if not thorough else ["i", "", "s", "f", "T", "ii"]
         all_alts = [alts(n_) for n_ in root + sub]
@@ -110,8 +109,15 @@ def build(ctx):
             for loc, tags, dflt in [(1, tagsets[ti % len(tagsets)], 1 if (hashed and ti % 3 == 0) else 0), (0, tagsets[ti % len(tagsets)], 0)]:
                 # hashed lookup with a location buffer: a symbolic byte makes the hash, hence the port index and the callback
                 # pointer, symbolic (does not finish); there the byte is enumerated over the table's alphabet plus 3 foreign chars
-                numeric = any(c.isdigit() for c in pre0 + post)   # path through a #N port: a symbolic byte next to the index does not finish
-                variants = [(pre0, sym0)] if not (sym0 and ((hashed and loc) or numeric)) else [(pre0 + ch, 0) for ch in ["0", "1", "9", "q", "/"]] if numeric and not (hashed and loc) else [(pre0 + ch, 0) for ch in (alphabet if thorough else [alphabet[ti % (len(alphabet) - 3)], "q", "0"])]
+                # tables with #N ports: a symbolic byte that may become a digit or complete another port's name next to an
+                # index does not finish; there the byte is enumerated over the table alphabet plus digits and foreign chars
+                numeric = any("#" in n_ for n_ in root + sub)
+                if sym0 and hashed and loc:
+                    variants = [(pre0 + ch, 0) for ch in (alphabet if thorough else [alphabet[ti % (len(alphabet) - 3)], "q", "0"])]
+                elif sym0 and numeric:
+                    variants = [(pre0 + ch, 0) for ch in sorted(set(["0", "1", "9", "q", "/"] + alphabet if thorough else ["0", "2", "q", alphabet[ti % (len(alphabet) - 3)], alphabet[(ti + 2) % (len(alphabet) - 3)]]))]
+                else:
+                    variants = [(pre0, sym0)]
                 for pre, sym in variants:
                     defs = ["-DLOC=%d" % loc, '-DTAGS="%s"' % tags, "-DWITH_DEFAULT=%d" % dflt, '-DTABLE_INC="%s"' % tinc, '-DADDR_PRE="%s"' % pre, "-DADDR_SYM=%d" % sym,
                             '-DADDR_POST="%s"' % post, "-fno-access-control"]
